@@ -154,6 +154,21 @@ class SealContext:
         return Ctx()
 
 
+class FailingContext:
+    """a ConfigWalkContext whose job path is unavailable: every path generator raises (a seal that fails half-way)"""
+
+    @classmethod
+    def get(cls):
+        from experimaestro.core.objects import ConfigWalkContext
+
+        class Ctx(ConfigWalkContext):
+            @property
+            def path(self):
+                raise RuntimeError("xv: no job path in this context")
+
+        return Ctx()
+
+
 def run_op(objs, mod, op):
     """executes one operation on the real objects; canonical outcome"""
     from experimaestro import setmeta
@@ -164,6 +179,14 @@ def run_op(objs, mod, op):
         if k == "seal":
             o.__xpm__.seal(SealContext.get())
             return {"ok": True}
+        if k == "failseal":
+            try:
+                o.__xpm__.seal(FailingContext.get())
+                return {"ok": True, "raised": False}
+            except RuntimeError as e:
+                if "xv: no job path" in str(e):
+                    return {"ok": True, "raised": True}
+                raise
         if k == "raw":
             return {"id": o.__xpm__.raw_identifier.all.hex()}
         if k == "full":
